@@ -1,5 +1,5 @@
 \* witness of the finding: TLC must find the cross-pool counterexample
-CONSTANTS Threads = {1, 2}  Sizes = {5, 8}  MaxOpsPerThread = 1  Prefill = 20  Limit = 32  CasOnTotal = FALSE
+CONSTANTS Threads = {1, 2}  Sizes = {2, 8}  MaxOpsPerThread = 1  Prefill = 22  Limit = 32  CasOnTotal = FALSE
 CONSTANT PoolsOf <- PoolsCross
 SPECIFICATION Spec
 VIEW view
